@@ -181,10 +181,27 @@ def _make_type(cc, node, built, path):
 METHOD_SOURCES = {}
 
 
+class Outer:
+    """Module-level class with a nested class (annotations in generated method sources)."""
+
+    class Inner:
+        pass
+
+
+def _local_class():
+    class LocalCls:  # qualified name contains '<locals>'
+        pass
+
+    return LocalCls
+
+
+LOCAL_CLS = _local_class()
+
+
 def _make_method(node, built, path):
     src = node["params"]["source"]  # "def f(cfg, a, b=1, *args, c, **kw) -> int: ..."
     glb = {"typing": __import__("typing"), "List": __import__("typing").List,
-           "Optional": __import__("typing").Optional, "Dict": __import__("typing").Dict}
+           "Optional": __import__("typing").Optional, "Dict": __import__("typing").Dict, "Outer": Outer, "LocalCls": LOCAL_CLS}
     exec(src, glb)  # noqa: S102 - harness generated source
     fn = glb[node["params"].get("fname", "f")]
     return fn
